@@ -1680,10 +1680,11 @@ std::string Generator::GeneratorImpl::generateCode(const AnalyserEquationAstPtr 
         code = generateCode(ast->leftChild());
 
         break;
-    case AnalyserEquationAst::Type::CI:
-        code = generateVariableNameCode(ast->variable(), ast->parent()->type() != AnalyserEquationAst::Type::DIFF);
+    case AnalyserEquationAst::Type::CI: {
+        auto astParent = ast->parent();
 
-        break;
+        code = generateVariableNameCode(ast->variable(), (astParent == nullptr) || (astParent->type() != AnalyserEquationAst::Type::DIFF));
+    } break;
     case AnalyserEquationAst::Type::CN:
         code = generateDoubleCode(ast->value());
 
